@@ -932,7 +932,7 @@ func (n *node) addClaim(r *hlib.Rng, tags *[]string) bool {
 
 // submitQuaiTx: publish the head to the pool (Slice's job), add the tx, wait until it is pending.
 func (n *node) submitQuaiTx(tx *types.Transaction, tags *[]string, what string) bool {
-	n.z.VerifC10NotifyHead()
+	n.z.ResetPool()
 	var err error
 	for i := 0; i < 60; i++ {
 		if err = n.z.Pool.AddLocal(tx); err == nil || err == core.ErrAlreadyKnown {
@@ -1014,7 +1014,7 @@ func (s *scenario) genChild(n *node, r *hlib.Rng, branch string, o *blockOpts) (
 			}
 		}
 	}
-	b, err := n.z.Assemble(true)
+	b, err := n.z.LockedAssemble(true)
 	if len(n.myQi) > 0 {
 		n.z.Pool.RemoveQiTxs(n.myQi)
 		n.myQi = nil
@@ -1022,9 +1022,10 @@ func (s *scenario) genChild(n *node, r *hlib.Rng, branch string, o *blockOpts) (
 	if err != nil {
 		return nil, fmt.Errorf("assemble: %w", err)
 	}
-	if err := n.z.Append(b); err != nil {
+	if err := n.z.LockedAppend(b); err != nil {
 		return nil, fmt.Errorf("append: %w", err)
 	}
+	n.z.ResetPool()
 	bi := &blockInfo{wo: b, hash: b.Hash(), parent: head.Hash(), num: b.NumberU64(common.ZONE_CTX), branch: branch}
 	if _, dup := s.blocks[bi.hash]; dup {
 		return nil, fmt.Errorf("duplicate block")
@@ -1097,6 +1098,7 @@ type runner struct {
 	cw     *hlib.CaseWriter
 	nextID uint64
 	tier   string
+	hung   bool
 }
 
 func (s *scenario) pathFrom(anc, tip common.Hash) []*blockInfo {
@@ -1136,7 +1138,23 @@ func (s *scenario) commonAncestor(a, b common.Hash) common.Hash {
 
 func short(h common.Hash) string { return h.Hex()[2:10] }
 
+// runScenario runs one scenario under a watchdog: a node that stops answering must not hang the check.
 func (rn *runner) runScenario(s *scenario) {
+	done := make(chan struct{})
+	go func() {
+		defer close(done)
+		rn.runScenario1(s)
+	}()
+	select {
+	case <-done:
+	case <-time.After(180 * time.Second):
+		rn.rep.Note(fmt.Sprintf("scenario %d (%s, %s, seed %d): no answer from the node within 180s, abandoned", s.ID, s.Kind, s.Backend, s.Seed))
+		rn.rep.Count("scenario-abandoned:timeout")
+		rn.hung = true
+	}
+}
+
+func (rn *runner) runScenario1(s *scenario) {
 	defer func() {
 		if e := recover(); e != nil {
 			rn.rep.Fail("harness-or-node-panic", fmt.Sprintf("scenario %d (%s, %s): panic: %v", s.ID, s.Kind, s.Backend, e),
@@ -1280,7 +1298,8 @@ func (rn *runner) runScenario(s *scenario) {
 	defer nt.close()
 	for _, name := range []string{"A", "B", "C"} {
 		for _, bi := range branches[name] {
-			nt.z.Store(bi.wo)
+			w := bi.wo
+			nt.z.Locked(func() { nt.z.Store(w) })
 			if len(bi.inbound) > 0 {
 				rawdb.WriteInboundEtxs(dbT, bi.hash, bi.inbound)
 			}
@@ -1350,7 +1369,7 @@ func (rn *runner) runScenario(s *scenario) {
 		}
 		pre := scan(nt, maxN)
 		tsw := time.Now()
-		err := nt.z.Hc.SetCurrentHeader(tgt.wo)
+		err := nt.z.LockedSetHead(tgt.wo)
 		tSwitch += time.Since(tsw)
 		post := scan(nt, maxN)
 		rn.rep.Evaluations++
@@ -1745,7 +1764,7 @@ func main() {
 	rep := hlib.NewReport("C10", "a case = one real HeaderChain.SetCurrentHeader between two blocks of a tree of real blocks (base chain + 2..3 branches of depth 1..5 built by the real worker: "+
 		"Qi coinbases, cross-zone Qi transfers, conversions, signed Qi spends, trimming, lockup-contract coinbases with/without delegate, claims) on memorydb/leveldb/pebble, or one real vm.AddNewLock call; "+
 		"non-trivial = at least one block rolled back whose undo records are non-empty; distinct by (blocks rolled back, blocks re-appended, set of undo-record kinds involved)")
-	cw := hlib.NewCaseWriter(f.Out, "From Coq Require Import List NArith Bool.\nFrom GQ Require Import Lib.Key Lib.SMap Model.C10.\nImport ListNotations.\nLocal Open Scope N_scope.\n", "C10.case", 12)
+	cw := hlib.NewCaseWriter(f.Out, "From Coq Require Import List NArith Bool Uint63.\nFrom GQ Require Import Lib.Key Lib.SMap Model.C10.\nImport ListNotations.\nLocal Open Scope N_scope.\n", "C10.case", 25)
 	rn := &runner{rep: rep, cw: cw, tier: f.Tier, nextID: 1}
 	rng := hlib.NewRng(f.Seed)
 
